@@ -363,6 +363,26 @@ def _raised_in_implementation(ex):
     return False
 
 
+_TASKS = []          # the chunks of the current correspond() call: workers are forked AFTER this is set and receive
+                     # only an index, so that no large object travels through the pool's task pipe (a pool whose
+                     # feeder thread is blocked on a full pipe can deadlock in terminate() when a worker has failed)
+
+
+def _worker_idx(i):
+    """run one chunk; an exception of the harness itself comes back as a value, never through the pool"""
+    try:
+        r = _worker(_TASKS[i])
+        r['_i'] = i
+        return r
+    except BaseException as ex:  # noqa
+        import traceback
+        return {'harness_error': f'{type(ex).__name__}: {ex}', 'traceback': traceback.format_exc()}
+
+
+class HarnessError(RuntimeError):
+    pass
+
+
 def _worker(args):
     """evaluate one chunk of cases: implementation in-process, model through a driver process"""
     mod_name, chunk, use_model = args
@@ -488,21 +508,28 @@ class Run:
                 results.append(_worker(a))
                 if deadline and time.time() > deadline:
                     break
-        elif not deadline:
-            with mp.get_context('fork').Pool(min(NPROC, len(chunks))) as pool:
-                results = pool.map(_worker, args)
         else:
+            global _TASKS
+            _TASKS = args
             results = []
             pool = mp.get_context('fork').Pool(min(NPROC, len(chunks)))
+            failed = None
             try:
-                for r in pool.imap_unordered(_worker, args):
+                for r in pool.imap_unordered(_worker_idx, range(len(args))):
+                    if 'harness_error' in r:
+                        failed = r
+                        break
                     results.append(r)
-                    if time.time() > deadline:
+                    if deadline and time.time() > deadline:
                         self.notes.append(f'search time budget reached after {len(results)} of {len(args)} chunks')
                         break
             finally:
                 pool.terminate()
                 pool.join()
+                _TASKS = []
+            results.sort(key=lambda r: r['_i'])        # imap_unordered: restore the order of the chunks
+            if failed:
+                raise HarnessError(failed['harness_error'] + '\n' + failed['traceback'])
         for r in results:
             self.evaluations += r['n']
             self.hashes.update(r['hashes'])
